@@ -141,6 +141,26 @@ def gen_case(rng: random.Random, k: int) -> Dict[str, Any]:
         raised = f"{type(e).__name__}: {e}"[:300]
     finally:
         assignment_ops.find_assignment = real
+    # ---- the other built-in generator that pairs vehicles with fleet-owned entities: the charging fleet manager
+    # (every idle / repositioning vehicle made a candidate by high range thresholds); its instructions name a
+    # station (or base) for a vehicle - the pair is judged by the membership rule (C10), as the dispatcher's pairs are
+    cfm_pairs: List[Any] = []
+    try:
+        from nrel.hive.dispatcher.instruction_generator.charging_fleet_manager import ChargingFleetManager
+        from nrel.hive.dispatcher.instruction import instructions as _I
+
+        env_c = env._replace(config=env.config._replace(dispatcher=env.config.dispatcher._replace(
+            charging_range_km_threshold=rng.choice([50.0, 500.0, 5000.0]), charging_range_km_soft_threshold=rng.choice([100.0, 5000.0]),
+            max_search_radius_km=rng.choice([5.0, 100.0]))))
+        _, c_instrs = ChargingFleetManager(env_c.config.dispatcher).generate_instructions(sim, env_c)
+        for i in c_instrs:
+            if isinstance(i, (_I.DispatchStationInstruction, _I.ChargeStationInstruction)) and i.station_id in sim.stations:
+                cfm_pairs.append([0, [n.get("veh", i.vehicle_id), n.get("stn", i.station_id)]])
+            elif isinstance(i, (_I.DispatchBaseInstruction, _I.ChargeBaseInstruction, _I.ReserveBaseInstruction)) and i.base_id in sim.bases:
+                cfm_pairs.append([1, [n.get("veh", i.vehicle_id), n.get("base", i.base_id)]])
+    except Exception:
+        pass
+    env.reporter.reports = []
     fleet_order = sorted(env.fleet_ids, key=str) if len(env.fleet_ids) > 0 else [None]
     py_msgs: List[str] = []
     if raised is None and len(calls) != len(fleet_order):
@@ -192,8 +212,8 @@ def gen_case(rng: random.Random, k: int) -> Dict[str, Any]:
     return {
         "op": "dispatch", "id": f"d{k}", "sim": enc_sim(n, sim), "cfg": {"validKinds": list(valid), "matchRange": q(match_range), "baseRange": q(base_range)},
         "ranges": ranges, "kmPerUnit": km_per_unit, "calls": out_calls, "cost": [[n.get("veh", a), [n.get("req", b), c]] for (a, b), c in sorted(cost_tbl.items())],
-        "pyMsgs": py_msgs, "raised": raised,
-        "meta": {"fleets": [str(f) for f in fleet_order], "valid": list(valid), "match_range": match_range, "sizes": [[len(c["V"]), len(c["R"])] for c in calls],
+        "pyMsgs": py_msgs, "raised": raised, "cfmPairs": cfm_pairs,
+        "meta": {"cfm_pairs": len(cfm_pairs), "fleets": [str(f) for f in fleet_order], "valid": list(valid), "match_range": match_range, "sizes": [[len(c["V"]), len(c["R"])] for c in calls],
                  "acts": sorted({type(v.vehicle_state).__name__ for v in sim.vehicles.values()})},
     }
 
